@@ -1065,6 +1065,8 @@ func (r *Run) toPebbleOpts(mo model.IterOpts, useMaskFilter bool) *pebble.IterOp
 	default:
 		o.KeyTypes = pebble.IterKeyTypePointsAndRanges
 	}
+	// no semantic effect: L6 tables consult their bloom filters too
+	o.UseL6Filters = r.rng.IntN(2) == 0
 	if mo.MaskSuffix != "" {
 		o.RangeKeyMasking.Suffix = []byte(mo.MaskSuffix)
 		if useMaskFilter {
